@@ -1582,6 +1582,7 @@ package sftp
 //@ ghost var rdOKorEOF bool
 
 //@ func fileget
+//@   property C13
 //@   update after call (io.ReaderAt).ReadAt#1: ghost.rdOKorEOF = ret1 == nil || ret1 == io.EOF
 //@   ensures typeis(result, *sshFxpDataPacket) ==> ghost.rdOKorEOF
 // (C13 / C01: a READ is answered with data only if the handler's ReadAt succeeded or hit the end of the file; any other
@@ -1626,6 +1627,7 @@ package sftp
 //@   ensures typeis(result, *sshFxpStatusPacket)
 
 //@ func fileputget
+//@   property C13
 //@   update after call (WriterAtReaderAt).ReadAt#1: ghost.rdOKorEOF = ret1 == nil || ret1 == io.EOF
 //@   ensures typeis(result, *sshFxpDataPacket) ==> ghost.rdOKorEOF
 //@   assert before call (*allocator).ReleasePages#*: false
